@@ -99,4 +99,10 @@ HARNESSES = [
          unwindset=["copy_node:4", "destroy_nodes_dfs:4"] + ["harness.%d:4" % i for i in range(5)],
          cases=[dict(id="dot%d_nn%d" % (d, n), defines={"DOT": d, "NN": n}, tier=t)
                 for d, n, t in ((0, 0, "quick"), (1, 0, "quick"), (1, 1, "quick"), (1, 2, "quick"))]),
+    dict(name="xattr_writer", file="xattr_writer.c", label="bounded(blocks<=2,pairs=3)",
+         fp={"destroy": "xattr_writer_destroy", "copy": "xattr_writer_copy",
+             "key_compare": "block_compare"},
+         flags=LEAK, timeout=120, unwind=5,
+         cases=[dict(id="nb%d_first%d" % (n, f), defines={"NB": n, "FIRST": f}, tier=t)
+                for n, f, t in ((0, 0, "quick"), (1, 0, "quick"), (2, 0, "quick"), (2, 1, "thorough"))]),
 ]
